@@ -11,8 +11,22 @@ NOTE = ('trusted: clang 14 AST as the meaning of the C++; the bs2c translation t
         'vectors capped at 65536 elements; reference aliasing, allocation failure and threads not modelled; template instantiations as listed in fe/drivers')
 
 CLAIMS = {
-    'C13': ('proof', 'Every Support/Grid index function is under a whole-result contract (64-bit machine arithmetic, wrap-around included) that cbmc discharges for all grids, windows and all 2^64 index values; the algebraic laws (commutative, associative, idempotent, inverse conversions, consistent views) are lemmas proved from those contracts only. Stronger than the statement\'s "grids up to a size bound".', '4 C13'),
+    'C02': ('proof', 'findInterval, the Horner evaluator, operator() and front/back are under contracts taken from the statement (zero outside the closed support; inside, the stored polynomial of the containing interval about its midpoint; at a shared grid point one of the two adjacent pieces), discharged for all grids, windows, coefficients and abscissae, orders 0..3. One obligation (throw for a point-like support) fails on the unchanged tree and is a recorded known finding.', '4 C02'),
+    'C03': ('proof', 'Every arithmetic operator of Spline (scalar *, /, unary -, their in-place forms, cross-order assignment, product, sum, +=, -=, binary -) is under a contract that fixes support and every coefficient of the result on the arbitrary interval gj (Cauchy product, zero-padded sum, zero in gaps), for all operand placements and an unbounded number of intervals (loop contracts). Orders 0..2 quick, 0..3 thorough. linearCombination is not under contract yet.', '4 C03'),
+    'C04': ('proof', 'Derivative<n>, Position<n>, Identity transforms (n = 0..4, sizes 1..4) against coefficient-wise and EVAL-form specifications printed from the mathematics; faculty/facultyRatio/binomialCoefficient as value tables; transformSpline and operator*(O,S) with loop contracts (same support, per-interval transform, absolute index passed on).', '4 C04'),
+    'C05': ('proof', 'Constructor-wise over ABSTRACT child operators (uninterpreted functions): OperatorProduct, OperatorSum (+/-), ScalarMultiplication transforms, the scalar factory overloads, SplineOperator (grid guard, Cauchy product inside the factor support, zero outside), plus the concrete expression trees the generator uses. All expression trees follow by structural induction (meta-argument). The integer-divisor overload of operator/ is a recorded known finding.', '4 C05'),
+    'C06': ('proof', 'The per-interval kernel equals the exact integral for all size pairs up to 4x4 (5x3 for abstract operators); BilinearForm::evaluate: grid guard, and every call of the two (abstract) operators is made with the operand\'s own piece, grid and absolute interval index (table rendering, checked preconditions). The accumulation identity (result = sum of the per-interval integrals) is a BOUNDED stand-in for BilinearForm (at most 3 common intervals) and proved unboundedly only for LinearForm.', '4 C06'),
+    'C07': ('proof', 'LinearForm kernels (sizes 1..6) equal the exact integral; LinearForm::evaluate with an abstract operator returns the prefix sum of the per-interval integrals over exactly the intervals of the support (quantified prefix-sum axiom, unbounded number of intervals), 0 for an interval-free spline.', '4 C07'),
+    'C08': ('proof', 'Every entry point under contract that takes two splines or a spline factor carries the clause "grids logically different => DIFFERING_GRIDS" (calcUnion, calcIntersection, +, -, *, +=, -=, BilinearForm::evaluate, SplineOperator::transform), in-place forms additionally "target unchanged". Logical equality is a ghost relation, so distinct objects with equal points are the same grid by construction. linearCombination, integrate() and the generator-with-grid constructor are not under contract yet.', '4 C08'),
+    'C10': ('proof', 'grid_valid / support_valid / spline_valid are required and ensured by the contracts of constructors, moves (moved-from objects are valid and interval-free), assignments, arithmetic and operator application, including the exceptional exits; every history follows by induction over its length (encapsulation is a meta-argument). Aliasing cases (self-move, self-assignment) are not modelled.', '4 C10'),
+    'C11': ('proof', 'Witness-style iff contracts for the Grid constructors (exact and IEEE semantics, so NaN is covered; "valid input is never refused" with a quantified hypothesis), Support and Spline constructors / setData / checkValidity. Generator, linearCombination and interpolate entry points are not under contract yet.', '4 C11'),
+    'C13': ('proof', 'Every Support/Grid index function is under a whole-result contract (64-bit machine arithmetic, wrap-around included) discharged for all grids, windows and all 2^64 index values; the algebraic laws (commutative, associative, idempotent, smallest hull, inverse conversions, consistent views, equality laws) are lemmas proved from those contracts only. Stronger than the statement\'s "grids up to a size bound".', '4 C13'),
+    'C14': ('proof', 'Frame conditions: every non-mutating operation has an assigns clause listing at most the exception flag (dfcc checks every write), in-place operators ensure "threw => target unchanged", setData validates before overwriting, the ghost heap of grid vectors is only written by allocation of a fresh slot (frame clause of the Grid constructor). Storage sharing between splines cannot be expressed (by-value extraction).', '4 C14'),
+    'C15': ('proof', 'isZero (both directions, the converse with a quantified hypothesis), checkOverlap (true iff the windows share an interval, for logically equal grids), Spline/Support/Grid equality and inequality in witness form; reflexive/symmetric/transitive/copy laws as lemmas.', '4 C15'),
+    'C19': ('other', 'A contract on the type parameter: an archetype scalar offering only the documented operations (explicit integral constructor, four arithmetic operators with compound forms, unary minus, six comparisons, no implicit conversions) instantiates every core template and generic interpolate, calling every public operation; decided by the C++ type checker of clang and gcc. Type checking, not CBMC, and labelled so.', '4 C19'),
+    'C13x': None,
 }
+CLAIMS.pop('C13x')
 
 NA = {
     'C16': 'floating-point forward-error bounds over chains of operations: no contract within reach of CBMC\'s bit-precise float encoding can express or decide a 2^20-ulp bound; no real-arithmetic error model is installed (DESIGN.md 4 C16)',
@@ -20,6 +34,12 @@ NA = {
     'C18': 'data-race freedom under all interleavings: CBMC contracts are sequential, the pipeline has no thread model',
 }
 
+NA.update({
+    'C01': 'not claimed yet: the recursion step (applyRecursionRelation) and the operator applications it uses are under contract (contracts/gen.ctr, run by the C05 check); the order-0 step, the order recursion and the constructors are not, so the property as a whole is not decided in this revision',
+    'C09': 'not claimed as a separate check yet: the safety obligations (bounds, STL preconditions, overflow, conversions) are generated and discharged inside every block of the other checks and reported there with tag C09',
+    'C12': 'not claimed yet: the bounded stand-in for interpolate is not built in this revision',
+    'C20': 'numerical outcomes of the Eigen-based example programs (boundary values attained, eigenvalue shifts, n+1/2, -1/n^2) are outside any contract within reach; the opaque-Eigen extraction of the examples was not built',
+})
 PENDING = 'not claimed yet: the contracts for this property are not built in this revision'
 
 
@@ -37,8 +57,8 @@ def main():
                 'replay_cmd_template': 'python3 bin/replay.py {path}',
                 'engine': 'bsv',
                 'level_claimed': {'category': cat, 'text': text, 'design_ref': 'DESIGN.md section ' + ref},
-                'level_note': NOTE,
-                'technique': TECH,
+                'level_note': NOTE if pid != 'C19' else 'trusted: the C++17 type checkers of clang 14 and gcc 12; the driver names every public operation it checks',
+                'technique': TECH if pid != 'C19' else 'contract on the type parameter (archetype class), decided by the C++ type checker',
             })
     na = []
     for pid in props:
